@@ -70,6 +70,8 @@ def subst_e(a: tuple, x: Any, plug: tuple) -> tuple:
             raise Unspecified('u2: substitution under a binder that the plug mentions (document is silent on capture)')
         return ('mu', a[1], subst_e(a[2], x, plug))
     # meta-patterns: the substitution stays pending
+    if O.doc_e_fresh(a, x) or (plug[0] == 'ev' and plug[1] == x):
+        raise Unspecified('u4: the pending substitution would be redundant, i.e. an ill-formed term (meta_substitute is not defined by the document)')
     return ('es', a, x, plug)
 
 
@@ -93,6 +95,8 @@ def subst_s(a: tuple, X: Any, plug: tuple) -> tuple:
         if not O.doc_e_fresh(plug, a[1]):
             raise Unspecified('u2: substitution under a binder that the plug mentions (document is silent on capture)')
         return ('ex', a[1], subst_s(a[2], X, plug))
+    if O.doc_s_fresh(a, X) or (plug[0] == 'sv' and plug[1] == X):
+        raise Unspecified('u4: the pending substitution would be redundant, i.e. an ill-formed term (meta_substitute is not defined by the document)')
     return ('ss', a, X, plug)
 
 
@@ -148,6 +152,7 @@ class Machine:
         self.memory: list[tuple] = []
         self.claims: list[tuple] = []
         self.trace: list[tuple] = []  # disassembly: (opname, operands)
+        self.starts: list[tuple] = []  # (phase, offset) of every instruction start
         self.OP = opcodes()
         self.BY = {v: k for k, v in self.OP.items()}
 
@@ -191,6 +196,7 @@ class Machine:
             return tuple(out)
 
         while pos < len(buf):
+            self.starts.append((phase, pos))
             b = buf[pos]
             pos += 1
             name = None
@@ -336,3 +342,37 @@ def disassemble(buf: list, phase: str = 'gamma', machine: Machine | None = None)
     n0 = len(m.trace)
     m.run(buf, phase)
     return m.trace[n0:]
+
+
+ONE_OPERAND = ('EVar', 'SVar', 'Symbol', 'Exists', 'Mu', 'ESubst', 'SSubst', 'Generalization', 'Substitution', 'Load', 'CleanMetaVar')
+
+
+def boundaries(buf: list) -> list[int] | None:
+    """offsets at which an instruction starts, by operand layout only (no semantics);
+    None if the buffer does not decode (unknown opcode, symbolic length)"""
+    OP = opcodes()
+    BY = {v: k for k, v in OP.items()}
+    out = []
+    pos = 0
+    while pos < len(buf):
+        out.append(pos)
+        b = buf[pos]
+        if not isinstance(b, int) or b not in BY:
+            return None
+        name = BY[b]
+        pos += 1
+        if name in ONE_OPERAND:
+            pos += 1
+        elif name == 'MetaVar':
+            pos += 1
+            for _ in range(5):
+                if pos >= len(buf) or not isinstance(buf[pos], int):
+                    return None
+                pos += 1 + buf[pos]
+        elif name == 'Instantiate':
+            if pos >= len(buf) or not isinstance(buf[pos], int):
+                return None
+            pos += 1 + buf[pos]
+    if pos != len(buf):
+        return None
+    return out
